@@ -143,6 +143,11 @@ TEMPLATES = [
     ("dec_both_decos", 0, "@fi('s')\n@fi('t')\ndef d{n}():\n  pass"),
     ("dec_cls_two", 0, "@nope\nclass K{n}(nope2):\n  pass"),
     ("dec_sig_ml", 0, "@fi('s')\ndef d{n}(a,\n    b=fi('t')):\n  pass"),
+    # errors found while evaluating a string annotation / type comment (evaluated as a separate expression)
+    ("strann", 1, "def r{n}(a: 'nope_t{n}'):\n  pass"),
+    ("strann_ret", 0, "def r{n}(a) -> 'A.nope':\n  return a"),
+    ("strann_var", 0, "x{n}: 'nope_v{n}' = None"),
+    ("tcomment", 0, "x{n} = None  # type: nope_tc{n}"),
     # import errors (a trailing `type: ignore` on an import line is special-cased by the VM)
     ("imp_mod", 0, "import nosuchmod\nx{n} = nosuchmod.z"),
     ("imp_from", 0, "from nosuchmod import z\nx{n} = z"),
@@ -171,12 +176,14 @@ CONTEXTS = [
     ("if", "if c0:\n{T}", 1),
     ("meth", "class W{n}:\n  def w(self):\n{T}", 2),
     ("try", "try:\n{T}\nfinally:\n  pass", 1),
+    # characters that str.splitlines() treats as line breaks but the tokenizer does not
+    ("ff", "\x0c\n_ls = 'x\u2028y\x85z'\n{T}", 0),
 ]
 
 TPL = {t[0]: t for t in TEMPLATES}
 CTX = {c[0]: c for c in CONTEXTS}
 PLACEMENTS = ("trail-disable", "trail-ignore", "block", "open")
-QUICK_CORE_ONLY_CONTEXTS = ("fn", "if", "try")
+QUICK_CORE_ONLY_CONTEXTS = ("fn", "if", "try", "ff")
 
 
 def _indent(text, k):
